@@ -625,7 +625,12 @@ class World:
         elif op == "index":
             x = pick_mod()
             args = {"x": x}
-            fn = lambda T: T.index(self.obj[x])
+            if rnd.random() < 0.5:
+                a, b = rand_index(), rand_index()
+                args.update(start=a, stop=b)
+                fn = lambda T: T.index(self.obj[x], a, b)
+            else:
+                fn = lambda T: T.index(self.obj[x])
         elif op == "count":
             x = pick_mod()
             args = {"x": x}
